@@ -175,8 +175,17 @@ def _hand_down(ctx):
         ok = not bad
     # positive evidence: the counter is (re)computed from loop positions instead
     # of being advanced: comp_i + sec_i repeats values across components
-    recomputed = [n for n in walk_local(ct.node) if isinstance(n, ast.Assign) and norm(n.targets[0]) == 'self.next_tract_uid'
-                  and loop_of(n) is not None and isinstance(n.value, ast.BinOp)]
+    loop_vars = {x.id for lp in walk_local(ct.node) if isinstance(lp, ast.For)
+                 for x in ast.walk(lp.target) if isinstance(x, ast.Name)}
+    recomputed = []
+    for n in walk_local(ct.node):
+        if isinstance(n, ast.Assign) and norm(n.targets[0]) == 'self.next_tract_uid' and loop_of(n) is not None \
+                and isinstance(n.value, ast.BinOp):
+            pv_ = flow.provenance(ct.node, n.value)
+            from_self = 'self.next_tract_uid' in flow.prov_attrs(pv_)
+            names_ = {x.id for x in ast.walk(n.value) if isinstance(x, ast.Name)}
+            if not from_self and names_ and names_ <= loop_vars:
+                recomputed.append(n)
     if recomputed:
         bad = True
         ok = False
